@@ -121,8 +121,12 @@ class ComputationCache:
             self.invalidate_cache()
             # Compute those values in which we are interested.
             comp(only)
-            # Mark individual as no longer changed.
-            self._chromosome.changed = False
+            if cache:
+                # Mark individual as no longer changed.  Only do so if values were
+                # actually computed: when there was nothing to compute, the chromosome
+                # was not executed, and clearing the flag would make later computations
+                # reuse the execution result of the old, unchanged chromosome.
+                self._chromosome.changed = False
         elif len(cache) != len(funcs):
             # The individual has not changed, but not all values are cached.
             # So we might have to compute the missing ones.
